@@ -15,8 +15,11 @@ EXPLANATION = (
     "state module is the multi-borrow, and for every arity 2..8 and EVERY equality pattern of the tuple's types "
     "(all set partitions, 5294 cases) distinct() is true exactly when all types differ, try_get_mut performs no "
     "get_mut (hence no raw deref) and returns MultipleBorrowConflict unless all differ, and otherwise calls "
-    "get_mut::<Ti> once per element in order, returning NotFound when one is missing; (R4) in State::holding every "
-    "path from the take-out of T to any Ok or Err return re-inserts T; (R6) crate-wide dynamic-borrow typestate "
+    "get_mut::<Ti> once per element in order, returning NotFound when one is missing; (R4) State::holding is evaluated "
+    "(K6) over every placement of T in a three-scope chain x {closure succeeds, fails, inserts its own T on top}: the "
+    "closure runs with T taken out, afterwards T is back in exactly the scope it came from, the placeholder is gone and "
+    "the closure's result is returned (an absent T is an error that changes nothing); the placeholder key is a "
+    "function-local type generic in T; (R6) crate-wide dynamic-borrow typestate "
     "analysis (K4) over all component code. NOT decided: RefCell's own reader-count/writer-flag automaton (trusted), "
     "value visibility after release, interleavings of guards created by user code.")
 ASSUMPTIONS = ["core::cell::RefCell implements the reader-count / writer-flag automaton as documented",
